@@ -32,7 +32,7 @@ func (C16) Rule() string {
 }
 func (C16) Assumptions() []string {
 	return []string{
-		"no failing statements are generated here (C08 covers failures)",
+		"failing statements are six self-contained one-liners (alone or inside a block after a write); their reports are compared as a marker because they quote instruction indices; richer failures are C08's and C19's",
 		"comments are never placed on the last line of the stream when it has no final newline, nor on the last line of a REPL statement or in -eval text: a comment reaching end of input spins the lexer (C06, not claimed)",
 		"interactive terminal editing is out of reach: the REPL is driven through readline's non-terminal path",
 	}
@@ -156,9 +156,9 @@ func drawC16Stmt(tp *tape.Tape, idx int, r *core.Result, defined *[]string) c16S
 		r.Inc("F1.failing_statement", 1)
 		f := []string{"[1, 2][7]", "10 / (3 - 3)", "\"s\" * 2", "nosuchfn(1)", "aton(\"zz\")", "1 + nosuchvar"}[tp.Draw(6)]
 		if tp.Bool() {
-			return c16Stmt{[]string{"{", "write(\"pre;\")", f, "write(\"never\")", "}"}, []byte{'b', 'b', 'b', 'b', 't'}, false, "failing-block"}
+			return c16Stmt{[]string{"{", "write(\"pre;\")", f, "write(\"never\")", "}"}, []byte{'b', 'b', 'b', 'b', 't'}, true, "failing-block"}
 		}
-		return c16Stmt{[]string{f}, []byte{'t'}, false, "failing"}
+		return c16Stmt{[]string{f}, []byte{'t'}, true, "failing"}
 	case 12, 13: // a statement whose value is a string: the REPL echoes it, -eval prints it
 		lit, sp, nl := c16String(tp, tp.Bool())
 		if sp {
@@ -474,6 +474,15 @@ func (C16) Run(tp *tape.Tape) core.Result {
 		o := fresh.Submit(st.canon()+"\n", true)[0]
 		want := o.Out + o.Str + "\n"
 		got, code := run("", "-eval", st.canon())
+		if strings.HasPrefix(st.kind, "failing") {
+			// a failing statement: the same output and report as in the other modes, and the same exit
+			// status as the script and the REPL gave for the session that held it (checked above: 0)
+			if o.Kind != sess.KError || code != 0 || !strings.HasPrefix(got, o.Out+"RUNTIME ERROR") || strings.TrimSpace(got[len(o.Out+"RUNTIME ERROR"):]) != "" {
+				return finishC16(fail("eval-mode-binary", fmt.Sprintf("cmd/calc -eval of failing statement %d: exit status %d (file and REPL mode: 0), printed %q, want %q", i+1, code, trunc(got, 300), o.Out+"RUNTIME ERROR")), key, trace, h, multi, finalNewline)
+			}
+			r.Inc("mode.eval_binary_failing_statement", 1)
+			continue
+		}
 		if code != 0 || got != want {
 			return finishC16(fail("eval-mode-binary", fmt.Sprintf("cmd/calc -eval of statement %d exit %d printed %q, want %q", i+1, code, trunc(got, 300), trunc(want, 300))), key, trace, h, multi, finalNewline)
 		}
